@@ -6,7 +6,7 @@ from vlib import core
 r = json.load(open(sys.argv[1]))
 d = r['detail']
 print(r['what'], {k: v for k, v in d.items() if k not in ('text', 'lost')})
-def pth(p): return "/".join(core.uncps(x) if x and x[0] >= 0 else str(x[1]) for x in p)
+def pth(p): return "/".join(core.uncps(x) if not x or x[0] >= 0 else str(x[1]) for x in p)
 print([(o['op'], pth(o['path']), core.uncps(o['key']), o['v'].get('k'), o['i']) for o in r['event']['ops']])
 if 'lost' in d: print("LOST:", repr(core.uncps(d['lost'])))
 print(core.uncps(d.get('text', [])))
